@@ -1,7 +1,7 @@
 (* C07 — the candidate scans of LabelRestrictionIndex and LabelNameValueIndex never omit a true match. *)
 From Coq Require Import List NArith Bool Arith Lia.
 From Verif.Common Require Import Labels.
-From Verif.C07 Require Import Model Spec MapLemmas RestrProofs.
+From Verif.C07 Require Import Model Spec MapLemmas RestrProofs SliceProofs.
 Import ListNotations.
 Open Scope N_scope.
 
@@ -257,11 +257,11 @@ Theorem ri_candidates_superset_inv : forall x s a L,
   ri_inv x -> nlookup s (ri_sels x) = Some a -> eval a L = true -> In s (ri_candidates x L).
 Proof.
   intros x s a L HI Hs Hev. pose proof (HI s a Hs) as HR.
-  pose proof (restrictions_sound a L Hev) as Hsat.
+  pose proof (restrictions_f_sound a L Hev) as Hsat.
   unfold ri_candidates. apply in_or_app.
   unfold classify, classify_restr in HR.
-  destruct (most_restricted (restrictions a)) as [l|]; [|right; apply memN_In; auto].
-  destruct (blookup l (restrictions a)) as [r|] eqn:Er; [|right; apply memN_In; auto].
+  destruct (most_restricted (restrictions_f a)) as [l|]; [|right; apply memN_In; auto].
+  destruct (blookup l (restrictions_f a)) as [r|] eqn:Er; [|right; apply memN_In; auto].
   pose proof (Hsat l r (blookup_In _ _ _ _ Er)) as Hr.
   destruct (possible r) eqn:Ep; simpl in HR; [|exfalso; eapply impossible_unsat; eauto].
   destruct (r_vals r) as [vs|] eqn:Ev.
